@@ -317,7 +317,13 @@ def rule_summaries(ctx):
     SD = lambda fld: ('call', '.values', (('idx', ('attr', ('param', 'data'), 'sampledata'), ('name', FMT + fld)),), (), None)
     total = lambda fld: ('call', 'sum', (SD(fld),), (), None)
     nsum = lambda fld: ('call', 'numpy.nansum', (('call', 'list', (SD(fld),), (), None),), (), None)
-    ploidies = ('call', 'sum', (('call', '.values', (('attr', ('param', 'data'), 'sample_ploidy'),), (), None),), (), None)
+    # the total ploidy of the samples of this record (not of every entry of the ploidy map, which may list samples that are not
+    # part of the run - defect S): sum(data.sample_ploidy[s] for s in data.samples)
+    _samples = ('attr', ('param', 'data'), 'samples')
+
+    def is_ploidies(t):
+        return t[0] == 'call' and t[1] == 'sum' and len(t[2]) == 1 and t[2][0][0] == 'comp' and len(t[2][0]) == 4 and t[2][0][3] == (_samples,) \
+            and t[2][0][2][0] == 'idx' and t[2][0][2][1] == ('attr', ('param', 'data'), 'sample_ploidy') and t[2][0][2][2][0] == 'loopvar' and t[2][0][2][2][2] == _samples
 
     def nan_or(v, x):
         # phi(isnan(x).all(), full(n_alleles, nan), x)
@@ -326,7 +332,8 @@ def rule_summaries(ctx):
     dp_vals = {simplify(x[2]) for x in stores_of(r) if x[0] == 'info' and x[1].split('.')[-1] == 'DP'}
     derived('DP', lambda v: dp_vals == {('name', 'numpy.nan'), nsum('DP')}, "INFO DP = nansum(FORMAT DP) (NaN for a locus without variants)", "INFO DP is not the sum of the sample depths")
     derived('ACP', lambda v: nan_or(v, total('ACP')), "INFO ACP = sum(FORMAT ACP) (all-NaN -> NaN vector of length R)", "INFO ACP is not the sum of the sample allele counts")
-    derived('AFP', lambda v: nan_or(v, ('bin', 'Div', total('ACP'), ploidies)), "INFO AFP = sum(FORMAT ACP) / sum(ploidy)", "INFO AFP is not the ploidy-weighted mean of the sample frequencies")
+    derived('AFP', lambda v: v[0] == 'phi' and v[3][0] == 'bin' and v[3][1] == 'Div' and v[3][2] == total('ACP') and is_ploidies(v[3][3]) and nan_or(v, v[3]),
+            "INFO AFP = sum(FORMAT ACP) / total ploidy of the samples of the run", "INFO AFP is not the sum of the sample allele counts over the total ploidy of the samples in the run")
     derived('NS', lambda v: v[0] == 'call' and v[1] == 'sum' and v[2][0][0] == 'comp' and v[2][0][2] == ('call', 'numpy.any', (mkcmp('GtE', ('loopvar', v[2][0][2][2][0][2][1] if v[2][0][2][0] == 'call' and v[2][0][2][2] and v[2][0][2][2][0][0] == 'cmp' else '?', SD('GT')), ('const', 0)),), (), None),
             "NS = number of samples with at least one called allele", "NS is not the number of samples with a called allele")
     derived('RCOUNT', lambda v: v == nsum('RCOUNT'), "INFO RCOUNT = nansum(FORMAT RCOUNT)", "INFO RCOUNT malformed")
